@@ -42,7 +42,9 @@ func fullStore(c initCfg) *simkube.Store {
 	}
 	s := newStore()
 	if res := runInit(s, c.withoutPackages(), -1); !res.ok() {
-		panic(explore.HarnessError{Msg: "preparing an initialised store: " + res.String()})
+		// A fault-free init of an empty cluster that fails is the code's
+		// fault, not the harness'.
+		panic(explore.Failure{Signature: "init/fails/" + errClass(res), Message: "a fault-free init of an empty cluster (" + c.String() + ") stops with " + res.String()})
 	}
 	fullCache[k] = s
 	freshCache[k] = snapshot(s).canonical()
@@ -192,7 +194,7 @@ func idempotenceCases(thorough bool) []icase {
 		add(icase{name: fmt.Sprintf("default/after-step-%02d-%s", i, stepNames(c)[i-1]), cfg: c, build: func() *simkube.Store {
 			s := newStore()
 			if res := runInit(s, c, i); !res.ok() {
-				panic(explore.HarnessError{Msg: "partial init: " + res.String()})
+				panic(explore.Failure{Signature: "init/fails/" + errClass(res), Message: fmt.Sprintf("the first %d steps of a fault-free init of an empty cluster stop with %s", i, res)})
 			}
 			return s
 		}})
@@ -257,7 +259,7 @@ func idempotenceCases(thorough bool) []icase {
 				add(icase{name: fmt.Sprintf("%s/after-step-%02d-%s", v.tag, i, stepNames(v.c)[i-1]), cfg: v.c, build: func() *simkube.Store {
 					s := newStore()
 					if res := runInit(s, v.c, i); !res.ok() {
-						panic(explore.HarnessError{Msg: "partial init: " + res.String()})
+						panic(explore.Failure{Signature: "init/fails/" + errClass(res), Message: fmt.Sprintf("the first %d steps of a fault-free init of an empty cluster stop with %s", i, res)})
 					}
 					return s
 				}})
